@@ -396,9 +396,21 @@ class Check:
             res, chk = confirmed
             script = minimise(prop, res["script"], cls, tier, budget_s=prop.MINIMISE_S[tier],
                               job_timeout=prop.JOB_TIMEOUT, log=lambda s: self.say("  " + s))
-            final = run_forked(prop, {"seed": res["job"]["seed"], "batch": "replay", "tier": tier, "script": script},
-                               prop.JOB_TIMEOUT)
+            final = None
+            flaky = False
+            for attempt in range(4):
+                f_ = run_forked(prop, {"seed": res["job"]["seed"], "batch": "replay", "tier": tier, "script": script}, prop.JOB_TIMEOUT)
+                if not f_.get("error") and any(vclass(v) == cls for v in f_["violations"]):
+                    final = f_
+                    break
+                flaky = True
+            if final is None:
+                # the minimised script fired during minimisation but not now: the behaviour is not a function of the script; keep the
+                # confirmed (unminimised) execution
+                script, final = res["script"], chk
             v = next(v for v in final["violations"] if vclass(v) == cls)
+            if flaky:
+                self.say("  (this violation does not fire on every execution of the same script: nondeterministic under replay)")
             feats = sorted(set(v.get("features", [])) | set(prop.features(script, v)))
             kf = next((k for k in known if matches_known(k, v, feats)), None)
             if kf is not None:
